@@ -20,6 +20,15 @@ package main
 // NewGenericRowGroupReader[any](src, target)); finally the source is read
 // plainly.
 //
+// Among the passes are the readers and rows that can be REWOUND: a
+// GenericReader / Reader over the source row group and the rows of
+// ConvertRowGroup are driven through ReadRows(k), Reset (when they have it),
+// and must start again at row 0 (history.go rowHistory, mode rewind), whatever
+// kind of Rows() the source hands out.  The source travels through the passes
+// as ONE slice of row groups owned by the scenario (argSnapshot): what an entry
+// point does to its arguments is what the next pass starts from, and the slice
+// is compared with its snapshot after every pass.
+//
 // Predicate: every pass yields the expected target rows (compareRows, the
 // independent projection + shredding), and the final plain read yields the
 // source rows, value for value.
@@ -28,6 +37,7 @@ import (
 	"bytes"
 	"fmt"
 	"math/rand"
+	"reflect"
 
 	"github.com/parquet-go/parquet-go"
 
@@ -113,7 +123,59 @@ func makeSource(kind int, schema *parquet.Schema, rows []parquet.Row, data []byt
 
 type sourcePass struct {
 	name string
-	run  func(b *built, src parquet.RowGroup, batch int) ([]parquet.Row, error)
+	run  func(b *built, src []parquet.RowGroup, batch int, rng *rand.Rand) ([]parquet.Row, error)
+}
+
+// Caller-owned arguments.  The source is handed to the passes as a slice of one
+// row group that sourceHistory owns: the entry points that take a []RowGroup
+// (MergeRowGroups, MultiRowGroup) get THAT slice, every pass, and the entry
+// points that take a row group get its element.  Whatever an entry point does
+// to its arguments is therefore what the next pass starts from, and after every
+// pass the slice must still hold the row group that was put there, with the
+// schema it had (argSnapshot).
+type argSnapshot struct {
+	elems   []parquet.RowGroup
+	schemas []string
+}
+
+func sameRowGroupValue(a, b parquet.RowGroup) (same bool) {
+	ta, tb := reflect.TypeOf(a), reflect.TypeOf(b)
+	if ta != tb {
+		return false
+	}
+	if ta == nil || !ta.Comparable() {
+		return true
+	}
+	defer func() {
+		if recover() != nil {
+			same = true
+		}
+	}()
+	return a == b
+}
+
+func snapshotArgs(rgs []parquet.RowGroup) *argSnapshot {
+	s := &argSnapshot{elems: append([]parquet.RowGroup(nil), rgs...)}
+	for _, rg := range rgs {
+		s.schemas = append(s.schemas, rg.Schema().String())
+	}
+	return s
+}
+
+// check: the slice (and the row groups in it) the caller passed are as they were.
+func (s *argSnapshot) check(call string, rgs []parquet.RowGroup) error {
+	if len(rgs) != len(s.elems) {
+		return &classedError{"caller-arguments-modified", fmt.Sprintf("%s: the caller's slice has %d row groups, it had %d", call, len(rgs), len(s.elems))}
+	}
+	for i := range rgs {
+		if !sameRowGroupValue(rgs[i], s.elems[i]) {
+			return &classedError{"caller-arguments-modified", fmt.Sprintf("%s replaced element %d of the slice of row groups the caller passed (%T -> %T)", call, i, s.elems[i], rgs[i])}
+		}
+		if got := rgs[i].Schema().String(); got != s.schemas[i] {
+			return &classedError{"caller-arguments-modified", fmt.Sprintf("%s changed the schema of the row group %d the caller passed: it was [%s], it is [%s]", call, i, core.Trunc(s.schemas[i], 300), core.Trunc(got, 300))}
+		}
+	}
+	return nil
 }
 
 func copyRowsInto(dst interface {
@@ -135,13 +197,16 @@ func copyRowsInto(dst interface {
 }
 
 var sourcePasses = []sourcePass{
-	{"CopyRows(Buffer of the target schema, src.Rows())", func(b *built, src parquet.RowGroup, batch int) ([]parquet.Row, error) {
+	{"CopyRows(Buffer of the target schema, src.Rows())", func(b *built, srcs []parquet.RowGroup, batch int, rng *rand.Rand) ([]parquet.Row, error) {
+		src := srcs[0]
 		return copyRowsInto(parquet.NewBuffer(b.ts), src, len(b.rows), batch)
 	}},
-	{"CopyRows(RowBuffer[any] of the target schema, src.Rows())", func(b *built, src parquet.RowGroup, batch int) ([]parquet.Row, error) {
+	{"CopyRows(RowBuffer[any] of the target schema, src.Rows())", func(b *built, srcs []parquet.RowGroup, batch int, rng *rand.Rand) ([]parquet.Row, error) {
+		src := srcs[0]
 		return copyRowsInto(parquet.NewRowBuffer[any](b.ts), src, len(b.rows), batch)
 	}},
-	{"CopyRows(file writer of the target schema, src.Rows())", func(b *built, src parquet.RowGroup, batch int) ([]parquet.Row, error) {
+	{"CopyRows(file writer of the target schema, src.Rows())", func(b *built, srcs []parquet.RowGroup, batch int, rng *rand.Rand) ([]parquet.Row, error) {
+		src := srcs[0]
 		var out bytes.Buffer
 		w := parquet.NewGenericWriter[any](&out, b.ts)
 		rows := src.Rows()
@@ -161,7 +226,8 @@ var sourcePasses = []sourcePass{
 		defer r.Close()
 		return readAll(r, batch)
 	}},
-	{"ConvertRowGroup(src, conv).Rows()", func(b *built, src parquet.RowGroup, batch int) ([]parquet.Row, error) {
+	{"ConvertRowGroup(src, conv).Rows()", func(b *built, srcs []parquet.RowGroup, batch int, rng *rand.Rand) ([]parquet.Row, error) {
+		src := srcs[0]
 		conv, err := parquet.Convert(b.ts, src.Schema())
 		if err != nil {
 			return nil, err
@@ -170,7 +236,8 @@ var sourcePasses = []sourcePass{
 		defer rows.Close()
 		return readAll(rows, batch)
 	}},
-	{"ConvertRowReader(src.Rows(), conv)", func(b *built, src parquet.RowGroup, batch int) ([]parquet.Row, error) {
+	{"ConvertRowReader(src.Rows(), conv)", func(b *built, srcs []parquet.RowGroup, batch int, rng *rand.Rand) ([]parquet.Row, error) {
+		src := srcs[0]
 		conv, err := parquet.Convert(b.ts, src.Schema())
 		if err != nil {
 			return nil, err
@@ -179,8 +246,8 @@ var sourcePasses = []sourcePass{
 		defer rows.Close()
 		return readAll(parquet.ConvertRowReader(rows, conv), batch)
 	}},
-	{"MergeRowGroups({src}, target schema).Rows()", func(b *built, src parquet.RowGroup, batch int) ([]parquet.Row, error) {
-		m, err := parquet.MergeRowGroups([]parquet.RowGroup{src}, b.ts)
+	{"MergeRowGroups({src}, target schema).Rows()", func(b *built, srcs []parquet.RowGroup, batch int, rng *rand.Rand) ([]parquet.Row, error) {
+		m, err := parquet.MergeRowGroups(srcs, b.ts)
 		if err != nil {
 			return nil, err
 		}
@@ -188,12 +255,63 @@ var sourcePasses = []sourcePass{
 		defer rows.Close()
 		return readAll(rows, batch)
 	}},
-	{"NewGenericRowGroupReader[any](src, target schema)", func(b *built, src parquet.RowGroup, batch int) ([]parquet.Row, error) {
+	{"NewGenericRowGroupReader[any](src, target schema)", func(b *built, srcs []parquet.RowGroup, batch int, rng *rand.Rand) ([]parquet.Row, error) {
+		src := srcs[0]
 		r := parquet.NewGenericRowGroupReader[any](src, b.ts)
 		defer r.Close()
 		return readAll(r, batch)
 	}},
+	{"NewRowGroupReader(src, target schema)", func(b *built, srcs []parquet.RowGroup, batch int, rng *rand.Rand) ([]parquet.Row, error) {
+		r := parquet.NewRowGroupReader(srcs[0], b.ts)
+		defer r.Close()
+		return readAll(r, batch)
+	}},
+	// Reset (and SeekToRow) as operations of the readers that have them, over
+	// every source kind: some rows are read, the reader is rewound, and the
+	// rows must start again at row 0 (rowHistory, mode rewind); then the usual
+	// random history, and the rewound reader read to the end.
+	{"NewGenericRowGroupReader[any](src, target schema), ReadRows/Reset/SeekToRow history", func(b *built, srcs []parquet.RowGroup, batch int, rng *rand.Rand) ([]parquet.Row, error) {
+		r := parquet.NewGenericRowGroupReader[any](srcs[0], b.ts)
+		defer r.Close()
+		mode := genHistMode(rng, false, true)
+		mode.rewind, mode.fwdSeek = true, forwardOnlySource
+		if err := rowHistory(b.pairs, b.want, r, rng, mode); err != nil {
+			return nil, err
+		}
+		return readAll(r, batch)
+	}},
+	{"NewRowGroupReader(src, target schema), ReadRows/Reset/SeekToRow history", func(b *built, srcs []parquet.RowGroup, batch int, rng *rand.Rand) ([]parquet.Row, error) {
+		r := parquet.NewRowGroupReader(srcs[0], b.ts)
+		defer r.Close()
+		mode := genHistMode(rng, false, true)
+		mode.rewind, mode.fwdSeek = true, forwardOnlySource
+		if err := rowHistory(b.pairs, b.want, r, rng, mode); err != nil {
+			return nil, err
+		}
+		return readAll(r, batch)
+	}},
+	{"ConvertRowGroup(src, conv).Rows(), ReadRows/Reset/SeekToRow history", func(b *built, srcs []parquet.RowGroup, batch int, rng *rand.Rand) ([]parquet.Row, error) {
+		conv, err := parquet.Convert(b.ts, srcs[0].Schema())
+		if err != nil {
+			return nil, err
+		}
+		rows := parquet.ConvertRowGroup(srcs[0], conv).Rows()
+		defer rows.Close()
+		mode := genHistMode(rng, false, true)
+		mode.rewind, mode.fwdSeek = true, forwardOnlySource
+		if err := rowHistory(b.pairs, b.want, rows, rng, mode); err != nil {
+			return nil, err
+		}
+		again := parquet.ConvertRowGroup(srcs[0], conv).Rows()
+		defer again.Close()
+		return readAll(again, batch)
+	}},
 }
+
+// forwardOnlySource: the rows of the source in hand refuse to seek backward
+// (with an error: the concatenation of the rows of several row groups); the
+// histories then seek forward only, Reset stays.
+var forwardOnlySource bool
 
 // sourceHistory runs the scenario; nil or a *classedError (or the error of the library).
 func sourceHistory(b *built, data []byte, rng *rand.Rand) error {
@@ -206,10 +324,16 @@ func sourceHistory(b *built, data []byte, rng *rand.Rand) error {
 		return &classedError{"source-rows-altered", fmt.Sprintf("source %s: NumRows() = %d for %d rows written", sourceKinds[kind], src.NumRows(), len(b.rows))}
 	}
 	trace := "source " + sourceKinds[kind]
+	forwardOnlySource = kind >= 4 && len(b.rows) >= 2
+	srcs := []parquet.RowGroup{src}
+	snap := snapshotArgs(srcs)
 	for pass, n := 1, 2+rng.Intn(2); pass <= n; pass++ {
 		p := sourcePasses[rng.Intn(len(sourcePasses))]
 		trace += fmt.Sprintf("; pass %d: %s", pass, p.name)
-		got, err := p.run(b, src, 1+rng.Intn(7))
+		got, err := p.run(b, srcs, 1+rng.Intn(7), rng)
+		if e := snap.check(trace, srcs); e != nil {
+			return e
+		}
 		if err != nil {
 			return fmt.Errorf("%s: %w", trace, err)
 		}
@@ -220,6 +344,7 @@ func sourceHistory(b *built, data []byte, rng *rand.Rand) error {
 			return &classedError{cl, trace + ": " + what}
 		}
 	}
+	src = srcs[0]
 	// the source still holds its rows
 	rows := src.Rows()
 	got, err := readAll(rows, 1+rng.Intn(7))
